@@ -55,7 +55,9 @@ func c28(c *vc.Ctx) {
 	pairSetups := vc.Pick(c, []int{1, 2}, []int{0, 1, 2})
 	parAlpha := []string{"", "-", "+", "--", "-e", "+e", "-o", "+o", "errexit", "nosuch", "-eu", "-z", "a", "-x"}
 
-	c.Rule = "(1) " + space.describe() + fmt.Sprintf(" + the string literals of interp/interp_test.go; each distinct syntax tree (dump without positions; layout deviations and variants that give the same tree are run once) is run by a fresh Runner under %d variable environments (x,y,a unset / strings + positional parameters / indexed arrays / associative arrays); ", c28NumModes) +
+	c.Rule = "(0a) arithmetic boundary family: " + c28ArithDescribe() + fmt.Sprintf("; evaluated by `echo $((E))` (thorough: in every variant in which the operator parses), by `((E))` and `let E` (quick: left operands 1 and n only; thorough: all pairs), the %d unary/bare expressions in all 3 evaluating and %d consuming contexts (slice offset/length of a string, $@, indexed/sparse arrays; subscripts in expansion, assignment, append, unset, array literals, associative arrays; shift/return/break/exit counts; declare -i; [[ -le ]]/[ -ge ]; C-style for; OPTIND before getopts; thorough: every operator x pair in every consuming context too), and `${T: off: len}` for ALL operand pairs over the targets %q; ", c28ArithNSmall(), len(c28ArithConsume1), c28ArithSliceTargets) +
+		"(0b) state family: preludes {" + c28ZooDescribe(!c.Quick()) + fmt.Sprintf("} (aliases with empty/blank/trailing-blank/multi-word/self-referential/unparsable/chained values with expand_aliases on, off and through New(Interactive(true)); functions incl. self-removing and self-redefining; namerefs to a variable, an element, nothing, itself, a cycle, the empty name; readonly/integer/exported scalars, arrays and functions; traps; a directory stack; a getopts scan in the middle of an option group; set -u; odd positional parameters; thorough: also the union of all and everything under Interactive(true)) x every NAME the prelude defines x %d argument templates + %d identifier templates (type/command -v -V/alias/unalias/declare/typeset/unset/readonly/export/local/trap/pushd/popd/dirs/getopts/shift/return/break/eval/source/hash/shopt/set/read/mapfile/printf -v/wait/test -v -R -o/let, invocation in 12 command contexts, 22 parameter expansions, arithmetic, 11 assignment forms, function definitions, loops) + %d name-less calls per prelude, each followed by inspectors of the same NAME (type, command -v/-V, alias, declare -p/-f/-F, trap -p, dirs -v, export -p, readonly -p, invocation, expansion) and the common epilogue; thorough: ALL ordered pairs of %d+%d core calls on the same name; ", len(c28ZooArgT), len(c28ZooIdentT), len(c28ZooNoNameT), len(c28ZooCoreArgT), len(c28ZooCoreIdentT)) +
+		"(1) " + space.describe() + fmt.Sprintf(" + the string literals of interp/interp_test.go; each distinct syntax tree (dump without positions; layout deviations and variants that give the same tree are run once) is run by a fresh Runner under %d variable environments (x,y,a unset / strings + positional parameters / indexed arrays / associative arrays); ", c28NumModes) +
 		fmt.Sprintf("(2) each of the %d builtins (string literals of interp.IsBuiltin in the working tree + declaration keywords) with ALL argument vectors of length <=%d (one less for the builtins that only print 'unsupported builtin') over the common alphabet %q plus per-builtin symbols (c28_builtins.go), in 3 setups (top level without parameters; after `set -- p -ab q` with variables; inside a for loop inside a function; vectors of length 3 only in the second), declaration keywords both with unquoted and quoted arguments, standard input is a short regular file (read, mapfile, readarray also with a strings.Reader, an empty reader and no stdin), also behind `builtin`/`command` with <=%d arguments; `test` and `[ ... ]` additionally with ALL operand vectors of length <=%d over %q; ALL ordered pairs of the %d calls of the stateful-builtin menu (getopts, shift, set, OPTIND, pushd/popd/cd, trap, read, mapfile, declare/local, unset, wait, return/break/continue, functions, alias, source/eval) in the setups %v", len(names), argLen, c28Common, argLen-1, testLen, c28TestAlpha, len(menu), pairSetups) +
 		func() string {
 			if triples {
@@ -105,7 +107,37 @@ func c28(c *vc.Ctx) {
 				emit0(t)
 			}
 		}
-		// part 3 first (small), then 2, then 1
+		// part 0 first (the two small boundary families, interleaved so that a
+		// run cut short by its budget has seen the start of both), then 3, 2, 1
+		// (the thorough tier's families are streamed, not held in memory)
+		var fam [2][]c28Case
+		put := func(k int, t c28Case) {
+			if c.Quick() {
+				fam[k] = append(fam[k], t)
+			} else {
+				emit(t)
+			}
+		}
+		c28ArithGen(!c.Quick(), func(src, variant string) {
+			// an operator whose left operand must be a name is rejected by the
+			// parser when it is a literal: not a run
+			if _, err := parseVariant(src, variant); err != nil {
+				c.Count("arith_noparse_not_run", 1)
+				return
+			}
+			put(0, c28Case{Part: "arith", Src: src, Variant: variant, Stdin: 3, WallMS: wallMS, Steps: steps})
+		})
+		c28ZooGen(!c.Quick(), func(src string, inter bool) {
+			put(1, c28Case{Part: "zoo", Src: src, Inter: inter, Stdin: 3, WallMS: wallMS, Steps: steps})
+		})
+		for i := 0; i < len(fam[0]) || i < len(fam[1]); i++ {
+			for k := range fam {
+				if i < len(fam[k]) {
+					emit(fam[k][i])
+				}
+			}
+		}
+		fam[0], fam[1] = nil, nil
 		enum.Seqs(c28Indices(len(c28OptMenu)), optLen, func(v []int) {
 			emit(c28Case{Part: "opts", Opts: append([]int(nil), v...)})
 		})
@@ -247,6 +279,12 @@ func c28KeyOf(t c28Case) string {
 	case "prog":
 		return fmt.Sprintf("prog|%s|env%d|%s", t.Variant, t.Mode, t.Src)
 	}
+	if t.Part == "arith" && t.Variant != "" && t.Variant != "bash" {
+		return fmt.Sprintf("%s|%s|stdin%d|%s", t.Part, t.Variant, t.Stdin, t.Src)
+	}
+	if t.Inter {
+		return fmt.Sprintf("%s|interactive|stdin%d|%s", t.Part, t.Stdin, t.Src)
+	}
 	return fmt.Sprintf("%s|stdin%d|%s", t.Part, t.Stdin, t.Src)
 }
 
@@ -268,8 +306,19 @@ func c28Describe(t c28Case) string {
 	case "prog":
 		return fmt.Sprintf("%s [%s, env %d]", shortSrc(t.Src), t.Variant, t.Mode)
 	}
+	switch {
+	case t.Part == "arith":
+		// the common prelude is not repeated in the description
+		src := strings.TrimPrefix(t.Src, c28ArithVars)
+		return shortSrc(strings.TrimLeft(src, ";\n ")) + " [after the operand prelude, " + t.Variant + "]"
+	case t.Inter:
+		return shortSrc(t.Src) + " [Interactive(true)]"
+	}
 	return shortSrc(t.Src)
 }
+
+// development aid: VERIF_C28_LOG=1 lists the cases that were not judged or cut
+var c28Log = os.Getenv("VERIF_C28_LOG") != ""
 
 func c28Judge(c *vc.Ctx, t c28Case, rep c28Reply) *vc.Fail {
 	c.Count("runs_"+t.Part, 1)
@@ -280,7 +329,13 @@ func c28Judge(c *vc.Ctx, t c28Case, rep c28Reply) *vc.Fail {
 		return nil
 	case rep.ParseErr:
 		c.Count("skipped_noparse", 1)
+		if c28Log {
+			fmt.Fprintf(os.Stderr, "C28LOG noparse %q\n", c28KeyOf(t))
+		}
 		return nil
+	}
+	if c28Log && (rep.StepsHit || rep.Deadline) {
+		fmt.Fprintf(os.Stderr, "C28LOG steps=%v deadline=%v %q\n", rep.StepsHit, rep.Deadline, c28KeyOf(t))
 	}
 	if rep.StepsHit {
 		c.Count("steps_hit", 1)
